@@ -9,7 +9,7 @@ Lemma C11_terminates_no_deadlock_glue :
     0 < nworkers -> 0 < qcap ->
     forall s0 sched,
       let s := brun o c nd items stopmode qcap (binit items nworkers s0) sched in
-      mpc s <> MRet -> exists t, t <> TCancel /\ bstep o c nd items stopmode qcap s t <> None.
+      mpc s <> MRet -> exists t, t <> TCancel /\ t <> TNote /\ bstep o c nd items stopmode qcap s t <> None.
 Proof.
   intros o c nd items stopmode nworkers qcap Hw Hq s0 sched s Hm.
   apply (no_deadlock_lemma o c nd items stopmode nworkers qcap Hw Hq); auto.
